@@ -544,3 +544,82 @@ def sym_len(x):
     if isinstance(x, SymList):
         return x.sym_len()
     return builtins.len(x)
+
+
+# --------------------------------------------------------------------------
+# in-memory file system for modules that call open() themselves (syx.py)
+# --------------------------------------------------------------------------
+class TextBytes:
+    """What reading a text-mode file in binary gives, when the text holds
+    number tokens: only decode(), len() and [0] are supported."""
+
+    def __init__(self, text):
+        self.text = text
+
+    def decode(self, *a):
+        return self.text
+
+    def __len__(self):
+        return len(self.text)
+
+    def __getitem__(self, i):
+        c = self.text[i]
+        if tokens.OPEN <= c <= '':
+            return builtins.ord('0')          # a token renders as hex digits: some ASCII digit
+        return builtins.ord(c)
+
+
+class FakeFile:
+    def __init__(self, fs, name, mode):
+        self.fs, self.name, self.mode = fs, name, mode
+        self.closed = False
+        if 'w' in mode:
+            fs.files[name] = '' if 'b' not in mode else []
+
+    def write(self, data):
+        if 'b' in self.mode:
+            if isinstance(data, str):
+                raise TypeError("a bytes-like object is required, not 'str'")
+            self.fs.files[self.name] = self.fs.files[self.name] + list(data)
+        else:
+            if not isinstance(data, str):
+                raise TypeError('write() argument must be str, not %s' % type(data).__name__)
+            self.fs.files[self.name] += data
+        return len(data)
+
+    def read(self, n=-1):
+        c = self.fs.files[self.name]
+        if isinstance(c, str):
+            if 'b' in self.mode:
+                if tokens.has_token(c):
+                    return TextBytes(c)
+                return c.encode('latin1')
+            return c
+        if all(isinstance(b, int) for b in c):
+            return bytes(c) if 'b' in self.mode else bytes(c).decode('latin1')
+        out = SymBytes()
+        list.extend(out, c)
+        return out
+
+    def close(self):
+        self.closed = True
+
+    def __enter__(self):
+        return self
+
+    def __exit__(self, *a):
+        self.close()
+        return False
+
+
+class FakeFS:
+    def __init__(self):
+        self.files = {}
+        self.opened = []
+
+    def open(self, name, mode='r', *a, **k):
+        if 'r' in mode and name not in self.files:
+            raise FileNotFoundError(name)
+        f = FakeFile(self, name, mode)
+        self.opened.append(f)
+        return f
